@@ -282,7 +282,7 @@ func typingFacts(v Val) []string {
 	case KSlice:
 		out = append(out, sliceFact(v))
 	case KIface:
-		out = append(out, mkCmp("<=", "0", v.Tag), mkCmp("<=", "0", v.Dat), mkImp(mkEq(v.Tag, "0"), mkEq(v.Dat, "0")))
+		out = append(out, mkCmp("<=", "0", v.Tag), mkCmp("<=", "0", v.Dat), mkEq(mkEq(v.Tag, "0"), mkEq(v.Dat, "0")))
 	case KStruct, KTuple:
 		for _, f := range v.Fs {
 			out = append(out, typingFacts(f)...)
